@@ -89,6 +89,11 @@ func parseVar(type_ string, rawValue string, r parser.Range) (Value, Interpreter
 	case analysis.TypeMonetary:
 		return parseMonetary(rawValue)
 	case analysis.TypeAccount:
+		// an account variable names an account the same way an account literal does:
+		// the empty string, or the internal "<kept>" marker, are not account names
+		if !accountNameRegex.MatchString(rawValue) {
+			return nil, InvalidAccountName{Name: rawValue, Range: r}
+		}
 		return AccountAddress(rawValue), nil
 	case analysis.TypePortion:
 		bi, err := ParsePortionSpecific(rawValue)
@@ -983,6 +988,9 @@ func (st *programState) evaluateSentAmt(sentValue parser.SentValue) (*string, *b
 		return nil, nil, nil
 	}
 }
+
+// same shape as the ACCOUNT token of the grammar (without the leading @)
+var accountNameRegex = regexp.MustCompile(`^[a-zA-Z0-9_-]+(:[a-zA-Z0-9_-]+)*$`)
 
 var percentRegex = regexp.MustCompile(`^([0-9]+)(?:[.]([0-9]+))?[%]$`)
 var fractionRegex = regexp.MustCompile(`^([0-9]+)\s?[/]\s?([0-9]+)$`)
